@@ -73,21 +73,22 @@ CHECKS['C01'] = dict(
     technique='TLA+ spec Engine.tla (three-valued conditions, globals, lets, first_match selection): TLC checks '
               'NonMatchingIrrelevant / LaterRulesIrrelevant / LetIsLocal on every file x transaction of the bounded universe; every '
               'state is concretised to .rules / CSV text and replayed through parse_merchants.match, get_all_rules+normalize_merchant '
-              'and the legacy CSV loop',
+              'and the legacy CSV loop; code -> spec: random rule files over the full concrete grammar (and legacy CSV rule files whose rule truth the harness decides itself) recorded from the real engine and validated by Trace_Engine.tla with the selection / tag-union operators of Engine.tla (tamper control)',
     text='Exhaustive within bounds: every rule file of the universe against every transaction; the spec value is compared with three '
-         'real code paths on merchant, category, subcategory and winning rule.',
+         'real code paths on merchant, category, subcategory and winning rule; about 30 000 recorded classifications of random files are '
+         'validated by the trace spec.',
     note=_ENGINE_NOTE, design='§4 C01')
 CHECKS['C02'] = dict(
     technique='TLA+ spec Engine.tla (tag union, dynamic tags, TagOnlyNeutral in both modes) checked by TLC; every state replayed into '
               'the real engine paths; every category-less rule is also deleted from the real file (metamorphic) and the '
-              'classification must not move',
+              'classification must not move; code -> spec: random rule files over the full concrete grammar (and legacy CSV rule files whose rule truth the harness decides itself) recorded from the real engine and validated by Trace_Engine.tla with the selection / tag-union operators of Engine.tla (tamper control)',
     text='Exhaustive within bounds in both rule modes; tag sets compared with the spec union on every path and tag-only rules shown '
          'neutral on the real code.',
     note=_ENGINE_NOTE, design='§4 C02')
 CHECKS['C09'] = dict(
     technique='TLA+ spec Engine.tla MostSpecific + MC_Specific.tla (one rule shape per adjacent inversion of the lexicographic '
               'ranking, all orders): TLC checks OrderIndependent / WinnerIsMaximal / TagsOrderIndependent; every state replayed into '
-              'parse_merchants(mode).match and get_all_rules(mode)+normalize_merchant',
+              'parse_merchants(mode).match and get_all_rules(mode)+normalize_merchant; code -> spec: random most_specific rule files over the full concrete grammar (ranking tuple computed from the structure of each rule; every file also reversed and shuffled) recorded from the real engine and validated by Trace_Engine.tla (tamper control)',
     text='Exhaustive within bounds over rule files whose rules differ in each ranking component, in every order, with ties; winner, '
          'category, subcategory and subcategory-winner compared with the spec.',
     note=_ENGINE_NOTE + '; literals are keyword-free so textual and structural constraint counting coincide', design='§4 C09')
@@ -117,7 +118,8 @@ CHECKS['C08'] = dict(
               '(ErrorIsAbsence) checked by TLC and replayed; 54 failing expressions placed in every position of a rule file (and failing '
               'view filters with view-local variables in a views file) and '
               'compared with the file without them on three classification paths; type-confused random expressions validated by '
-              'Trace_Expr.tla; tally up on two-source budgets',
+              'Trace_Expr.tla; tally up on two-source budgets; random rule files with failing expressions in every position validated by '
+              'Trace_Engine.tla and random views files with failing declarations validated by Trace_Views.tla',
     text='Every way an accepted expression can fail is enumerated in the model and concretely; the real engine must complete and give '
          'exactly the result of the file without the failing element.',
     note='"accepted" = the loader does not reject the text; reference outcome = real run without the failing element',
@@ -127,7 +129,8 @@ CHECKS['C05'] = dict(
     technique='TLA+ spec Rows.tla (row -> at most one transaction; cell vocabulary with known reading per decimal convention): TLC checks '
               'OnePerGoodRow / RowLocal / BadRowsIrrelevant / SignLaw / NegateIsMirror / HeaderSkipsExactlyOne on every table of the bounded '
               'universe; every state is rendered to CSV bytes (delimiter, quoting, line ending varied) and read by parse_format_string + '
-              'parse_generic_csv',
+              'parse_generic_csv; code -> spec: random tables / layouts / settings read by the real code, the cells of the file abstracted from the '
+              'own csv reading of the harness, validated by Trace_Rows.tla (Rows!Parse must give the observed transactions; tamper control)',
     text='Exhaustive within bounds: each vocabulary cell (every malformation named in the property) in each position, every layout, sign '
          'mode, decimal convention and header setting; the real parser output is compared field by field with the spec.',
     note='cell vocabulary restricted to texts whose reading the statement fixes; location compared only when the column is filled',
@@ -155,10 +158,11 @@ CHECKS['C10'] = dict(
     technique='TLA+ spec Views.tla (the view-filter language over one merchant: months, total, exact cv via its square, tags, payments, '
               'by()/period()/aggregates with auto-mapping, global and local variables, error => not a member): TLC checks ViewsIndependent / '
               'ExcludedNowhere / NegationPartitions and exports the membership matrix of every views file of the bounded universe; each is '
-              'replayed through parse_sections + analyze_transactions + classify_by_sections + compute_section_totals',
+              'replayed through parse_sections + analyze_transactions + classify_by_sections + compute_section_totals; code -> spec: random '
+              'merchants and views files through the real code, validated by Trace_Views.tla (Views!MemberOf per view and merchant; tamper control)',
     text='Exhaustive within bounds: every filter of the universe against every merchant; membership and view totals compared with the spec; '
          'independence additionally checked on the real code over all orders and sub-files of random 3-view files.',
-    note='fixed set of 9 merchants; stddev(), by("week"), exact cv ties and number-vs-list readings of `payments` are not judged',
+    note='fixed set of 13 merchants in the exhaustive universe, random ones in the trace family; stddev(), by("week"), exact cv ties and number-vs-list readings of `payments` are not judged',
     design='§4 C10')
 
 CHECKS['C14'] = dict(
